@@ -68,7 +68,7 @@ def query_s():
             st.builds(lambda qs, b: {"op": "and", "qs": qs, "boost": b}, l2, gen.boost_s),
             st.builds(lambda qs, b: {"op": "or", "qs": qs, "boost": b}, l2, gen.boost_s),
             st.builds(lambda qs, b: {"op": "or", "qs": qs, "boost": b}, l3, gen.boost_s),
-            st.builds(lambda qs: {"op": "dismax", "qs": qs, "tiebreak": 0.0}, st.one_of(l2, l3)),
+            st.builds(lambda qs, tb: {"op": "dismax", "qs": qs, "tiebreak": tb}, st.one_of(l2, l3), st.sampled_from([0.0, 0.0, 0.4])),
             st.builds(lambda a, b: {"op": "andnot", "a": a, "b": b}, ch, ch),
             st.builds(lambda a, b: {"op": "andmaybe", "a": a, "b": b}, ch, ch),
             st.builds(lambda a, b: {"op": "require", "a": a, "b": b}, ch, ch),
